@@ -56,7 +56,7 @@ def gen_strings(n, shape, alpha):
         pool = [rstr(alpha, 6) for _ in range(1 + rng.below(4))]
         return [rng.choice(pool) for _ in range(n)]
     if shape == "sharedprefix":                # long common prefix, then short random tails
-        p = bytes(alpha[rng.below(len(alpha))] for _ in range(rng.choice([3, 17, 64, 150, 400])))
+        p = bytes(alpha[rng.below(len(alpha))] for _ in range(rng.choice([3, 17, 64, 150, 400] if n < 300 else [3, 9, 17])))
         return [p + rstr(alpha, 3) for _ in range(n)]
     if shape == "allequal":
         w = rstr(alpha, 5)
@@ -95,7 +95,7 @@ def gen_small():
     if r < 45: n = rng.below(41)
     elif r < 68: n = rng.choice([31, 32, 33])
     elif r < 89: n = 34 + rng.below(90)
-    elif r < 97: n = 130 + rng.below(170)
+    elif r < 98: n = 130 + rng.below(170)
     else: n = 300 + rng.below(500)
     shape = rng.choice(SHAPES) if n < 300 else rng.choice(["sharedprefix", "sharedprefix", "random", "dups"])
     aname, alpha = rng.choice(ALPHABETS)
@@ -133,7 +133,7 @@ def gen_big(n, kind, algo, rep, lcp, mem):
         pool = [rstr(b"ab\xff", 5) for _ in range(40)]
         strs = [rng.choice(pool) for _ in range(n)]
     else: raise ValueError(kind)
-    return mkcase(algo, rep, rng.below(10), lcp, mem, 0, strs), (algo, rep, lcp, mem, n, "big-" + kind, kind)
+    return mkcase(algo, rep, rng.below(10) if algo == 0 else 0, lcp, mem, 0, strs), (algo, rep, lcp, mem, n, "big-" + kind, kind)
 
 cases, meta = [], []
 corpus = [l.strip() for l in open(os.path.join(verif.VERIF, "corpus", "C03", "cases.txt")) if l.strip()]
